@@ -371,8 +371,11 @@ class Check:
             "coverage": cov, "assumptions": self.assumptions, "wall_s": round(time.time() - self.t0, 2),
             "violations": n_unknown,
         }
-        (VERIF / "evidence").mkdir(exist_ok=True)
-        (VERIF / "evidence" / f"{self.pid}.json").write_text(json.dumps(ev, indent=1, default=str))
+        # evidence/ describes runs against /repo itself; runs against a scratch worktree (seeded changes) go elsewhere
+        evdir = VERIF / "evidence" if str(REPO) == "/repo" else BUILD / "evidence_scratch"
+        evdir.mkdir(exist_ok=True)
+        ev["coverage"]["source_tree"] = str(REPO)
+        (evdir / f"{self.pid}.json").write_text(json.dumps(ev, indent=1, default=str))
         for l in lines:
             print(l)
         print(f"[{self.pid}] tier={self.tier} seed={self.seed} obligations={dis}/{obl} "
